@@ -113,8 +113,8 @@ def _pair_judge(pid, tag, stage, cases, nchunks=None):
                 pairs.append((a, b))
             else:
                 a, b = base + '.A', base + '.B'
-                core.run_exec(exe, cp, a, env={'MALLOC_PERTURB_': '165'})
-                core.run_exec(exe, cp, b, env={'MALLOC_PERTURB_': '90'})
+                core.run_exec(exe, cp, a, env={'MALLOC_PERTURB_': '165', 'VERIF_STACK_FILL': '165'})
+                core.run_exec(exe, cp, b, env={'MALLOC_PERTURB_': '90', 'VERIF_STACK_FILL': '90'})
                 pairs.append((a, b))
                 if stage.get('memcheck'):
                     v = base + '.V'
